@@ -10,8 +10,9 @@ OBLIGATIONS = ['C15.translate_origin', 'C15.translate_fixes_einf', 'C15.translat
                'C15.direction_mv', 'C15.direction_is_classified', 'C15.direction_is_recovered', 'C15.flat_is_classified', 'C15.round_mv', 'C15.round_is_classified',
                'C15.translation_commutes_with_inner', 'C15.translation_commutes_with_outer', 'C15.translation_fixes_scalars',
                'C15.direction_element_invariant', 'C15.round_location_recovered',
-               'C15.coded_vector_inner_blade', 'C15.coded_blade_inner_vector', 'C15.coded_vector_wedge_blade', 'C15.coded_blade_wedge_vector', 'C15.vectors_are_directions']
-PARTIAL = ['DualFlat (duality with the pseudoscalar), the floating-point == 0 tests, grade bookkeeping / class aliases and the error branches have no Lean theorem: '
+               'C15.coded_vector_inner_blade', 'C15.coded_blade_inner_vector', 'C15.coded_vector_wedge_blade', 'C15.coded_blade_wedge_vector', 'C15.vectors_are_directions',
+               'C15.dualflat_is_orthogonal_to_einf', 'C15.dualflat_undual']
+PARTIAL = ['the floating-point == 0 tests, grade bookkeeping / class aliases and the error branches have no Lean theorem: '
            'decided by evaluation on the implementation',
            'the abstract identities write v|X, X|v, v^X, X^v by the half-sum formulas; these are proved for the coded tables (coded_*), and joined to the abstract '
            'statements on paper (no composite theorem through the model of the conformalised layout)']
